@@ -329,14 +329,17 @@ func (sc *sliceCtx) visitValuePath(v ssa.Value, path []int, stack []*ssa.Call, d
 			// a copy of another location: continue below that location with the same path
 			root := x.X
 			var pre []int
+			var chain []ssa.Value
 			for {
 				switch a := root.(type) {
 				case *ssa.FieldAddr:
 					pre = append([]int{a.Field}, pre...)
+					chain = append(chain, a)
 					root = a.X
 					continue
 				case *ssa.IndexAddr:
 					pre = append([]int{-1}, pre...)
+					chain = append(chain, a)
 					root = a.X
 					continue
 				}
@@ -344,6 +347,13 @@ func (sc *sliceCtx) visitValuePath(v ssa.Value, path []int, stack []*ssa.Call, d
 			}
 			if al, ok := root.(*ssa.Alloc); ok {
 				sc.seen[v] = true
+				// the places the value was read through belong to the slice (`start := e.Range.Start` reads e.Range)
+				for _, a := range chain {
+					sc.seen[a] = true
+					if ia, ok := a.(*ssa.IndexAddr); ok {
+						sc.visit(ia.Index, stack)
+					}
+				}
 				sc.visitAllocPath(al, append(pre, path...), stack, map[ssa.Value]bool{}, depth+1)
 				return
 			}
